@@ -1152,6 +1152,7 @@ package server
 // will; a second Close does nothing.
 // =====================================================================================================
 //@ func (*BinaryServerProtocol).ProcessCommad
+//@   at call NewInitResultCommand#1 assert C18.init.registered: has(self.slock.clients, initCommand.ClientId) && ref(self.slock.clients[initCommand.ClientId]) == self
 //@   at call LockCommandQueue.Push assert C18.will.register: calls(LockDB.Lock) == 0 && calls(LockDB.UnLock) == 0 && (arg1.CommandType == protocol.COMMAND_LOCK || arg1.CommandType == protocol.COMMAND_UNLOCK)
 //@   modifies all
 //@ func (*TextServerProtocol).ProcessCommad
@@ -1339,4 +1340,11 @@ package server
 //@ func (*TextServerProtocol).ProcessLockResultCommandLocked
 //@   requires self != nil && command != nil
 //@   at call TextServerProtocol.ProcessLockResultCommand assert C03.text.outstanding: command.RequestId == self.lockRequestId
+//@   modifies all
+
+// C18: a parked reply route (proxy) leaves the closed-connection sink only by being adopted by the connection that now
+// owns the client id: the new connection must know the proxy (AddProxy), or its own Close would not park it again
+//@ func (*ProxyServerProtocol).ProcessLockResultCommandLocked
+//@   requires self != nil
+//@   at call ProcessLockResultCommandLocked assert C18.proxy.adopted: implies(ref(self.serverProtocol) != ref(old(self.serverProtocol)), calls(AddProxy) == 1)
 //@   modifies all
